@@ -90,13 +90,13 @@ func (s *sim) classify() {
 
 // TestPropAgreementN4F1: the bulk configuration, four validators of power 1, one of them Byzantine.
 func TestPropAgreementN4F1(t *testing.T) {
-	stats.Check(t, stats.Budget{Quick: 26000, Thorough: 400000}, "n=4, one Byzantine validator, powers 1; "+simRule,
+	stats.Check(t, stats.Budget{Quick: 22000, Thorough: 320000}, "n=4, one Byzantine validator, powers 1; "+simRule,
 		func(rt *rapid.T, c *stats.Case) { runSim(rt, c, true) })
 }
 
 // TestPropAgreementWeighted: 1..7 validators, drawn voting powers (total = 0,1,2 mod 3), any set of Byzantine
 // validators holding less than a third of the power (possibly a majority by head count), powers may change per height.
 func TestPropAgreementWeighted(t *testing.T) {
-	stats.Check(t, stats.Budget{Quick: 22000, Thorough: 300000}, "n in 1..7, drawn powers, Byzantine power < N/3 (often at the limit); "+simRule,
+	stats.Check(t, stats.Budget{Quick: 19000, Thorough: 250000}, "n in 1..7, drawn powers, Byzantine power < N/3 (often at the limit); "+simRule,
 		func(rt *rapid.T, c *stats.Case) { runSim(rt, c, false) })
 }
